@@ -451,4 +451,353 @@ theorem complete_goodGraph (nodes : List α) (hnd : nodes.Nodup) (m : Nat)
     rw [complete_eq (d :: rest) _ (getD_spec (d :: rest) d)]
     exact goodGraph_of_idxGood _ hnd _ (getD_spec _ d) _ _ (complete_idxGood _ m hm)
 
+/-! ### random shapes -/
+
+/-- neighbour list of `v` in `toDict` -/
+def nbrs (es : Edges) (v : Nat) : List Nat :=
+  es.filterMap fun e => if e.1 = v then some e.2 else if e.2 = v then some e.1 else none
+
+theorem toDict_eq (n : Nat) (es : Edges) : toDict n es = idxG n (nbrs es) := rfl
+
+theorem nbrs_cons (e : Nat × Nat) (es : Edges) (v : Nat) :
+    nbrs (e :: es) v
+      = (if e.1 = v then [e.2] else if e.2 = v then [e.1] else []) ++ nbrs es v := by
+  unfold nbrs
+  by_cases h1 : e.1 = v
+  · simp [h1]
+  · by_cases h2 : e.2 = v
+    · simp [h1, h2]
+    · simp [h1, h2]
+
+theorem mem_nbrs {es : Edges} {v j : Nat} :
+    j ∈ nbrs es v ↔ (v, j) ∈ es ∨ (j ≠ v ∧ (j, v) ∈ es) := by
+  induction es with
+  | nil => simp [nbrs]
+  | cons e es ih =>
+    obtain ⟨a, b⟩ := e
+    rw [nbrs_cons, List.mem_append, ih]
+    simp only [List.mem_cons, Prod.mk.injEq]
+    by_cases h1 : a = v
+    · rw [if_pos h1, List.mem_singleton]
+      constructor
+      · rintro (h | h | h)
+        · exact Or.inl (Or.inl ⟨h1.symm, h⟩)
+        · exact Or.inl (Or.inr h)
+        · exact Or.inr ⟨h.1, Or.inr h.2⟩
+      · rintro (h | h)
+        · rcases h with h | h
+          · exact Or.inl h.2
+          · exact Or.inr (Or.inl h)
+        · rcases h with ⟨hne, h | h⟩
+          · exact absurd (h.1.trans h1) hne
+          · exact Or.inr (Or.inr ⟨hne, h⟩)
+    · rw [if_neg h1]
+      by_cases h2 : b = v
+      · rw [if_pos h2, List.mem_singleton]
+        constructor
+        · rintro (h | h | h)
+          · exact Or.inr ⟨by rw [h]; exact h1, Or.inl ⟨h, h2.symm⟩⟩
+          · exact Or.inl (Or.inr h)
+          · exact Or.inr ⟨h.1, Or.inr h.2⟩
+        · rintro (h | h)
+          · rcases h with h | h
+            · exact absurd h.1.symm h1
+            · exact Or.inr (Or.inl h)
+          · rcases h with ⟨hne, h | h⟩
+            · exact Or.inl h.1
+            · exact Or.inr (Or.inr ⟨hne, h⟩)
+      · rw [if_neg h2]
+        constructor
+        · rintro (h | h | h)
+          · cases h
+          · exact Or.inl (Or.inr h)
+          · exact Or.inr ⟨h.1, Or.inr h.2⟩
+        · rintro (h | h)
+          · rcases h with h | h
+            · exact absurd h.1.symm h1
+            · exact Or.inr (Or.inl h)
+          · rcases h with ⟨hne, h | h⟩
+            · exact absurd h.2.symm h2
+            · exact Or.inr (Or.inr ⟨hne, h⟩)
+
+/-- the invariant of the edge list while picks are added -/
+structure EInv (n : Nat) (es : Edges) : Prop where
+  inRange : ∀ e ∈ es, e.1 < n ∧ e.2 < n ∧ e.1 ≠ e.2
+  noDup : es.Pairwise fun e f => ¬ ((e.1 = f.1 ∧ e.2 = f.2) ∨ (e.1 = f.2 ∧ e.2 = f.1))
+
+theorem nodup_nbrs (v : Nat) : ∀ es : Edges,
+    (es.Pairwise fun e f => ¬ ((e.1 = f.1 ∧ e.2 = f.2) ∨ (e.1 = f.2 ∧ e.2 = f.1))) →
+    (nbrs es v).Nodup
+  | [], _ => by simp [nbrs]
+  | e :: es, hp => by
+    rw [List.pairwise_cons] at hp
+    have ih := nodup_nbrs v es hp.2
+    rw [nbrs_cons]
+    by_cases h1 : e.1 = v
+    · rw [if_pos h1, List.singleton_append, List.nodup_cons]
+      refine ⟨?_, ih⟩
+      intro hm
+      rcases mem_nbrs.1 hm with h | ⟨_, h⟩
+      · exact hp.1 _ h (Or.inl ⟨h1, rfl⟩)
+      · exact hp.1 _ h (Or.inr ⟨h1, rfl⟩)
+    · rw [if_neg h1]
+      by_cases h2 : e.2 = v
+      · rw [if_pos h2, List.singleton_append, List.nodup_cons]
+        refine ⟨?_, ih⟩
+        intro hm
+        rcases mem_nbrs.1 hm with h | ⟨_, h⟩
+        · exact hp.1 _ h (Or.inr ⟨rfl, h2⟩)
+        · exact hp.1 _ h (Or.inl ⟨rfl, h2⟩)
+      · rw [if_neg h2, List.nil_append]
+        exact ih
+
+theorem sum_map_add (a b : Nat → Nat) : ∀ l : List Nat,
+    (l.map fun v => a v + b v).sum = (l.map a).sum + (l.map b).sum
+  | [] => rfl
+  | x :: l => by
+    simp only [List.map_cons, List.sum_cons, sum_map_add a b l]
+    omega
+
+theorem sum_range_indicator (a : Nat) : ∀ n,
+    ((List.range n).map fun v => if a = v then 1 else 0).sum = if a < n then 1 else 0
+  | 0 => by simp
+  | n + 1 => by
+    rw [List.range_succ, List.map_append, List.sum_append, sum_range_indicator a n]
+    simp only [List.map_cons, List.map_nil, List.sum_cons, List.sum_nil]
+    by_cases h1 : a < n
+    · rw [if_pos h1, if_neg (by omega), if_pos (by omega)]; rfl
+    · rw [if_neg h1]
+      by_cases h2 : a = n
+      · rw [if_pos h2, if_pos (by omega)]; rfl
+      · rw [if_neg h2, if_neg (by omega)]; rfl
+
+theorem sum_nbrs_length (n : Nat) : ∀ es : Edges,
+    (∀ e ∈ es, e.1 < n ∧ e.2 < n ∧ e.1 ≠ e.2) →
+    ((List.range n).map fun v => (nbrs es v).length).sum = 2 * es.length
+  | [], _ => by
+    rw [sum_range_const (fun v => (nbrs [] v).length) 0 n (fun _ _ => rfl)]
+    simp
+  | e :: es, h => by
+    have ih := sum_nbrs_length n es (fun e he => h e (List.mem_cons_of_mem _ he))
+    obtain ⟨h1, h2, h3⟩ := h e List.mem_cons_self
+    have hpt : ∀ v, (nbrs (e :: es) v).length
+        = ((if e.1 = v then 1 else 0) + (if e.2 = v then 1 else 0)) + (nbrs es v).length := by
+      intro v
+      rw [nbrs_cons, List.length_append]
+      by_cases c1 : e.1 = v
+      · rw [if_pos c1, if_pos c1, if_neg (by omega)]; rfl
+      · by_cases c2 : e.2 = v
+        · rw [if_neg c1, if_pos c2, if_neg c1, if_pos c2]; rfl
+        · rw [if_neg c1, if_neg c2, if_neg c1, if_neg c2]; rfl
+    rw [List.map_congr_left (fun v _ => hpt v),
+      sum_map_add (fun v => (if e.1 = v then 1 else 0) + (if e.2 = v then 1 else 0))
+        (fun v => (nbrs es v).length),
+      sum_map_add (fun v => if e.1 = v then 1 else 0) (fun v => if e.2 = v then 1 else 0),
+      sum_range_indicator, sum_range_indicator, ih, if_pos h1, if_pos h2, List.length_cons]
+    omega
+
+theorem edge_toDict {n : Nat} {es : Edges} {i j : Nat} :
+    Edge (toDict n es) i j ↔ i < n ∧ ((i, j) ∈ es ∨ (j ≠ i ∧ (j, i) ∈ es)) := by
+  rw [toDict_eq, edge_idxG, mem_nbrs]
+
+theorem edge_toDict_mono {n : Nat} {es es' : Edges} (hsub : ∀ e ∈ es, e ∈ es') {i j : Nat}
+    (h : Edge (toDict n es) i j) : Edge (toDict n es') i j := by
+  rw [edge_toDict] at h ⊢
+  obtain ⟨hi, h | ⟨hne, h⟩⟩ := h
+  · exact ⟨hi, Or.inl (hsub _ h)⟩
+  · exact ⟨hi, Or.inr ⟨hne, hsub _ h⟩⟩
+
+theorem einv_idxGood (n : Nat) (es : Edges) (h : EInv n es)
+    (hc : ∀ i, i < n → Reach (toDict n es) 0 i) : IdxGood n (nbrs es) es.length := by
+  refine ⟨?_, ?_, ?_, ?_, hc, sum_nbrs_length n es h.inRange⟩
+  · intro i hi j hj
+    rcases mem_nbrs.1 hj with h' | ⟨_, h'⟩
+    · exact (h.inRange _ h').2.1
+    · exact (h.inRange _ h').1
+  · intro i hi j hj
+    rcases mem_nbrs.1 hj with h' | ⟨hne, h'⟩
+    · exact mem_nbrs.2 (Or.inr ⟨(h.inRange _ h').2.2, h'⟩)
+    · exact mem_nbrs.2 (Or.inl h')
+  · intro i hi hj
+    rcases mem_nbrs.1 hj with h' | ⟨hne, _⟩
+    · exact (h.inRange _ h').2.2 rfl
+    · exact hne rfl
+  · intro i _
+    exact nodup_nbrs i es h.noDup
+
+theorem hasEdge_eq_true {es : Edges} {u v : Nat} :
+    hasEdge es u v = true ↔ ∃ e ∈ es, (e.1 = u ∧ e.2 = v) ∨ (e.1 = v ∧ e.2 = u) := by
+  simp [hasEdge, List.any_eq_true]
+
+theorem hasEdge_eq_false {es : Edges} {u v : Nat} (h : hasEdge es u v = false) :
+    ∀ e ∈ es, ¬ ((e.1 = u ∧ e.2 = v) ∨ (e.1 = v ∧ e.2 = u)) := by
+  intro e he hc
+  have : hasEdge es u v = true := hasEdge_eq_true.2 ⟨e, he, hc⟩
+  rw [h] at this
+  cases this
+
+theorem validPick_spec {n : Nat} {es : Edges} {p : Nat × Nat} (h : validPick n es p = true) :
+    p.1 < n ∧ p.2 < n ∧ p.1 ≠ p.2 ∧ hasEdge es p.1 p.2 = false := by
+  simpa [validPick, and_assoc] using h
+
+theorem addPicks_spec (n : Nat) : ∀ (picks : List (Nat × Nat)) (es es' : Edges),
+    addPicks n es picks = some es' → EInv n es →
+    EInv n es' ∧ (∀ e ∈ es, e ∈ es') ∧ es'.length = es.length + picks.length
+  | [], es, es', h, hinv => by
+    simp only [addPicks, Option.some.injEq] at h
+    subst h
+    exact ⟨hinv, fun _ he => he, rfl⟩
+  | p :: ps, es, es', h, hinv => by
+    unfold addPicks at h
+    by_cases hv : validPick n es p = true
+    · rw [if_pos hv] at h
+      obtain ⟨p1, p2, p3, p4⟩ := validPick_spec hv
+      have hinv' : EInv n (es ++ [p]) := by
+        constructor
+        · intro e he
+          rcases List.mem_append.1 he with he | he
+          · exact hinv.inRange e he
+          · rw [List.mem_singleton] at he
+            subst he
+            exact ⟨p1, p2, p3⟩
+        · rw [List.pairwise_append]
+          refine ⟨hinv.noDup, List.pairwise_singleton _ _, ?_⟩
+          intro a ha b hb
+          rw [List.mem_singleton] at hb
+          subst hb
+          exact hasEdge_eq_false p4 a ha
+      obtain ⟨r1, r2, r3⟩ := addPicks_spec n ps (es ++ [p]) es' h hinv'
+      refine ⟨r1, fun e he => r2 e (List.mem_append_left _ he), ?_⟩
+      rw [r3, List.length_append, List.length_cons, List.length_cons, List.length_nil]
+      omega
+    · rw [if_neg hv] at h
+      cases h
+
+theorem isTree_einv {n : Nat} {t : Edges} (ht : IsTree n t) : EInv n t :=
+  ⟨ht.inRange, ht.noDup⟩
+
+theorem randomConnected_goodGraph (nodes : List α) (hnd : nodes.Nodup) (d : α) (k : Nat)
+    (t : Edges) (picks : List (Nat × Nat)) (ht : IsTree nodes.length t)
+    (hlen : picks.length + (nodes.length - 1) = k) (g : Adj α)
+    (h : randomConnected (fun i => nodes.getD i d) nodes.length k t picks = .ok g) :
+    GoodGraph nodes g k ∧ ∀ e ∈ t, Edge g (nodes.getD e.1 d) (nodes.getD e.2 d) := by
+  unfold randomConnected at h
+  split at h
+  · cases h
+  · split at h
+    · next es hes =>
+      obtain ⟨r1, r2, r3⟩ := addPicks_spec _ picks t es hes (isTree_einv ht)
+      have hk : es.length = k := by
+        have := ht.size
+        omega
+      have hg := Outcome.ok.inj h
+      subst hg
+      constructor
+      · rw [toDict_eq, ← hk]
+        apply goodGraph_of_idxGood nodes hnd _ (getD_spec nodes d)
+        apply einv_idxGood _ _ r1
+        intro i hi
+        exact Reach.map id (fun a b e => edge_toDict_mono r2 e)
+          (ht.connected 0 (by omega) i hi)
+      · intro e he
+        apply edge_relabel.2
+        refine ⟨e.1, e.2, edge_toDict.2 ⟨(ht.inRange e he).1, Or.inl (r2 e he)⟩, rfl, rfl⟩
+    · cases h
+
+theorem randomTree_goodGraph (nodes : List α) (hnd : nodes.Nodup) (d : α) (t : Edges)
+    (ht : IsTree nodes.length t) :
+    GoodGraph nodes (randomTree (fun i => nodes.getD i d) nodes.length t) (nodes.length - 1) := by
+  unfold randomTree
+  have hk : nodes.length - 1 = t.length := by
+    have := ht.size
+    omega
+  rw [toDict_eq, hk]
+  apply goodGraph_of_idxGood nodes hnd _ (getD_spec nodes d)
+  apply einv_idxGood _ _ (isTree_einv ht)
+  intro i hi
+  exact ht.connected 0 (by omega) i hi
+
+/-! ### the executable tree test -/
+
+theorem noDupB_pairwise : ∀ t : Edges, noDupB t = true →
+    t.Pairwise fun e f => ¬ ((e.1 = f.1 ∧ e.2 = f.2) ∨ (e.1 = f.2 ∧ e.2 = f.1))
+  | [], _ => List.Pairwise.nil
+  | e :: es, h => by
+    simp only [noDupB, Bool.and_eq_true, Bool.not_eq_true'] at h
+    rw [List.pairwise_cons]
+    refine ⟨?_, noDupB_pairwise es h.2⟩
+    intro f hf hc
+    apply hasEdge_eq_false h.1 f hf
+    rcases hc with ⟨a, b⟩ | ⟨a, b⟩
+    · exact Or.inl ⟨a.symm, b.symm⟩
+    · exact Or.inr ⟨b.symm, a.symm⟩
+
+theorem reachSet_sound (n : Nat) (es : Edges) : ∀ (fuel : Nat) (s : List Nat),
+    (∀ v ∈ s, v < n ∧ Reach (toDict n es) 0 v) →
+    ∀ v ∈ reachSet n es fuel s, v < n ∧ Reach (toDict n es) 0 v
+  | 0, s, hs => hs
+  | fuel + 1, s, hs => by
+    unfold reachSet
+    apply reachSet_sound n es fuel
+    intro v hv
+    rw [List.mem_filter, List.mem_range] at hv
+    obtain ⟨hvn, hv⟩ := hv
+    refine ⟨hvn, ?_⟩
+    rw [Bool.or_eq_true] at hv
+    rcases hv with hv | hv
+    · exact (hs v (List.contains_iff_mem.1 hv)).2
+    · rw [List.any_eq_true] at hv
+      obtain ⟨u, hu, he⟩ := hv
+      obtain ⟨hun, hru⟩ := hs u hu
+      refine Reach.step hru (edge_toDict.2 ⟨hun, ?_⟩)
+      obtain ⟨e, hee, h⟩ := hasEdge_eq_true.1 he
+      obtain ⟨e1, e2⟩ := e
+      rcases h with ⟨h1, h2⟩ | ⟨h1, h2⟩
+      · simp only at h1 h2
+        subst h1 h2
+        exact Or.inl hee
+      · simp only at h1 h2
+        subst h1 h2
+        by_cases huv : e1 = e2
+        · subst huv
+          exact Or.inl hee
+        · exact Or.inr ⟨huv, hee⟩
+
+theorem reachSet_sublist (n : Nat) (es : Edges) : ∀ (fuel : Nat) (s : List Nat),
+    s.Sublist (List.range n) → (reachSet n es fuel s).Sublist (List.range n)
+  | 0, _, h => h
+  | fuel + 1, _, _ => by
+    unfold reachSet
+    exact reachSet_sublist n es fuel _ List.filter_sublist
+
+theorem isTree_of_isTreeB (n : Nat) (t : Edges) (h : isTreeB n t = true) : IsTree n t := by
+  simp only [isTreeB, Bool.and_eq_true, beq_iff_eq, List.all_eq_true, bne_iff_ne,
+    decide_eq_true_eq] at h
+  obtain ⟨⟨⟨h1, h2⟩, h3⟩, h4⟩ := h
+  have hn : 0 < n := by omega
+  have hr : ∀ e ∈ t, e.1 < n ∧ e.2 < n ∧ e.1 ≠ e.2 := by
+    intro e he
+    have := h2 e he
+    exact ⟨this.1.1, this.1.2, this.2⟩
+  have hinv : EInv n t := ⟨hr, noDupB_pairwise t h3⟩
+  have hsub : (reachSet n t n [0]).Sublist (List.range n) :=
+    reachSet_sublist n t n [0] (List.singleton_sublist.2 (List.mem_range.2 hn))
+  have heq : reachSet n t n [0] = List.range n :=
+    hsub.eq_of_length (by rw [h4, List.length_range])
+  have h0 : ∀ v, v < n → Reach (toDict n t) 0 v := by
+    intro v hv
+    have hm : v ∈ reachSet n t n [0] := by rw [heq]; exact List.mem_range.2 hv
+    refine (reachSet_sound n t n [0] ?_ v hm).2
+    intro w hw
+    rw [List.mem_singleton] at hw
+    subst hw
+    exact ⟨hn, Reach.refl 0⟩
+  have hsymm : ∀ a b, Edge (toDict n t) a b → Edge (toDict n t) b a := by
+    intro a b hab
+    have hg := einv_idxGood n t hinv h0
+    rw [toDict_eq] at hab ⊢
+    obtain ⟨ha, hb⟩ := edge_idxG.1 hab
+    exact edge_idxG.2 ⟨hg.inRange a ha b hb, hg.symm a ha b hb⟩
+  exact ⟨h1, hr, hinv.noDup, fun a ha b hb => Reach.trans (Reach.symm hsymm (h0 a ha)) (h0 b hb)⟩
+
 end SqVerif.Topo
